@@ -4,6 +4,9 @@ Streams
   batcher     exact   real SimpleBatcher (own NumPy generator) vs Model/Batcher.lean `split/epoch/…`
                       (the permutations the generator draws are reproduced with a twin generator
                       and handed to the model as inputs)
+  user        exact   SimpleBatcher(train_indices=…, val_indices=…): partitions (sorted / unsorted), overlapping, incomplete,
+                      only one list given — vs model `initSplit`; the partition predicate applies when the user's lists
+                      are a partition
   subdivide   exact   subdivide_batches / generate_batches vs model
   numeric     float32 a tiny real Ptychography problem: per-batch losses recorded inside the real
                       `reconstruct` loop vs the model's batch-fraction scaling (binary64), for every
@@ -11,7 +14,10 @@ Streams
                       visited inside `reconstruct` vs the model's schedule
   determinism bitwise same seed twice / same object after `reset=True` → identical iter_losses
   history     bitwise one object: run(reset=True); continue without reset (1 and 2 iterations); run(reset=True)
-                      again → identical iter_losses AND identical batch schedule, also vs a fresh same-seed object
+                      again → identical iter_losses AND identical batch schedule, also vs a fresh same-seed object;
+                      every call of the history is replayed through the model's `reconstruct`/`reset_recon` state
+                      machine (generator position, reset-before-batcher order, epoch loss = mean over the yielded
+                      batches, validation-loss recording) and compared bit for bit
 The property predicate (partition, exactly-once, len, mean-of-batches = full batch, identical
 histories) is evaluated on the real code with plain Python/NumPy oracles that do not use the model.
 """
@@ -20,7 +26,7 @@ import math
 LEVEL = "proof"
 MANIFEST_ENTRY = {
     "category": "proof",
-    "text": "Lean 4 theorems over an executable model of SimpleBatcher / subdivide_batches / the batch-fraction scaling of error_estimate (the RNG's permutations are inputs, so all shuffles are covered): train/val split is a partition for every n, n_val, grid step, mode and permutation; every epoch yields each training index exactly once for every batch size >= 1; number of batches yielded = ceil(|train|/b) = __len__; i-th batch = order[i*b:(i+1)*b]; validation pass likewise; subdivide_batches sizes sum to n, differ by <= 1, respect max_batch, generate_batches ranges tile [start,start+n); over R the mean of batch losses (and, over any field/vector space, of any additive per-pattern quantity such as gradients) equals the full-batch value when b | n, with a counterexample for b not dividing n. Tied to the code on every run by exact enumeration of the real SimpleBatcher/subdivide_batches and by per-batch losses/gradients recorded inside the real Ptychography.reconstruct loop on tiny problems.",
+    "text": "Lean 4 theorems over an executable model of SimpleBatcher / subdivide_batches / the batch-fraction scaling of error_estimate (the RNG's permutations are inputs, so all shuffles are covered): train/val split is a partition for every n, n_val, grid step, mode and permutation; every epoch yields each training index exactly once for every batch size >= 1; number of batches yielded = ceil(|train|/b) = __len__; i-th batch = order[i*b:(i+1)*b]; validation pass likewise; subdivide_batches sizes sum to n, differ by <= 1, respect max_batch, generate_batches ranges tile [start,start+n); over R the mean of batch losses (and, over any field/vector space, of any additive per-pattern quantity such as gradients) equals the full-batch value when b | n, with a counterexample for b not dividing n; user supplied train/val lists that are a partition satisfy every schedule clause (only one list given raises); a state-machine model of reconstruct/reset_recon/_reset_rng (generator = seed + call position with an arbitrary draw oracle, arbitrary numerical step function): every recorded epoch loss is the sum over the yielded batches divided by their number for every b >= 1 (also non-dividing), validation losses are recorded once per iteration iff the validation set is non-empty, and reconstruct(reset=True) after ANY history of calls on a seeded object returns exactly the state, loss history and schedule of the fresh object (same_seed_same_run, reset_run_independent_of_history). Tied to the code on every run by exact enumeration of the real SimpleBatcher/subdivide_batches and by per-batch losses/gradients recorded inside the real Ptychography.reconstruct loop on tiny problems.",
     "note": "Proved: partition, exactly-once, counts, contiguity, loss/gradient scaling algebra. Measured only (real runs, tiny problems, autograd=True, CPU float32): equality of mean per-batch loss/gradients with the full batch for every divisor batch size and all five loss types, and bitwise identical loss histories for equal seeds / after reset=True. Trusted: NumPy Generator determinism (twin generator reproduces the drawn permutations), torch autograd. The analytic-gradient path (autograd=False) normalises each batch by its own probe overlap and is only measured, not judged.",
     "technique": "Lean 4 proof (induction over batches, permutation/partition lemmas, field algebra) + model-vs-implementation correspondence",
 }
@@ -32,7 +38,7 @@ TRUSTED = ["NumPy Generator determinism: np.random.default_rng(seed) reproduces 
            "Lean Float = IEEE binary64 (n_val = round(n*ratio) and k = round(1/ratio) are computed in the model exactly as in Python)"]
 ASSUMPTIONS = ["invariance of losses/gradients is judged for autograd=True (the default); with autograd=False the 'gradient' is an overlap-normalised update direction whose normalisation depends on the batch — its deviation is reported under measured.analytic_grad_rel_dev, no verdict",
                "'same seed' means every rng= argument (Ptychography, object model, probe model) receives the same seed",
-               "user supplied train_indices/val_indices (no validation in the code) are outside the property's quantifier and not generated",
+               "user supplied train_indices/val_indices are not validated by the code: the partition clauses are judged only when the supplied lists are a partition (other inputs are compared with the model only)",
                "gradient/loss comparison tolerance 5e-4 relative to the full-batch magnitude (float32 path); parameters are frozen (optimizer step skipped) while batches are recorded"]
 EXPLANATION = ("Theorems in Props/C09.lean are about Model/Batcher.lean; each run enumerates the real SimpleBatcher and subdivide_batches against the "
                "model exactly and records per-batch losses/gradients inside the real reconstruct loop of tiny problems.")
@@ -55,6 +61,22 @@ TOL32 = 5e-4
 def py_nval(n, ratio):
     r = 0.0 if (ratio < 0 or ratio >= 1) else ratio
     return int(round(n * r))
+
+
+def py_split(n, ratio, mode, perm):
+    """independent re-statement of the split (used to replay the generator calls of a run with a twin generator)"""
+    r = 0.0 if (ratio < 0 or ratio >= 1) else ratio
+    nv = int(round(n * r))
+    idx = list(range(n))
+    if nv <= 0:
+        return idx, []
+    if mode == "random":
+        val = list(perm[:nv])
+        return [i for i in idx if i not in set(val)], val
+    k, inv = (max(1, int(round(1.0 / r))), False) if r <= 0.5 else (max(1, int(round(1.0 / (1.0 - r)))), True)
+    sel = idx[::k][:nv]
+    rest = [i for i in idx if i not in set(sel)]
+    return (sel, rest) if inv else (rest, sel)
 
 
 def batcher_case(ctx, drv_reqs, case):
@@ -223,6 +245,78 @@ def run_batcher_stream(ctx, drv, cases):
         batcher_predicate(ctx, c, v)
         if kind == "regular" and n >= 6 and nval > 0 and b and 1 < b < n:
             ctx.sample({"stream": "batcher", "case": c, "train": v["train"], "val": v["val"], "first_epoch": v["epochs"][0], "len": v["len"]}, limit=2)
+
+
+# ---------------------------------------------------------------------------------------
+# stream (a1): user supplied train_indices / val_indices
+
+def gen_user_cases(ctx):
+    rng = ctx.rng.fork(7)
+    cases = []
+    for _ in range(ctx.n(400, 4000)):
+        n = rng.randint(1, 30)
+        kind = rng.weighted([("partition", 6), ("partition_unsorted", 3), ("overlap", 1), ("missing", 1), ("only_train", 1), ("only_val", 1)])
+        idx = rng.shuffle(list(range(n)))
+        nv = rng.randint(0, n)
+        val, train = idx[:nv], idx[nv:]
+        if kind == "partition":
+            val, train = sorted(val), sorted(train)
+        elif kind == "overlap" and train:
+            val = val + [train[0]]
+        elif kind == "missing" and train:
+            train = train[1:]
+        c = {"stream": "user", "n": n, "b": rng.choice([1, 2, 3, rng.randint(1, n + 2)]), "ratio": rng.choice([0.0, 0.25, 0.5]), "mode": rng.choice(["grid", "random"]),
+             "seed": rng.below(1 << 30), "shuffle": rng.chance(0.8), "kind": kind,
+             "train": None if kind == "only_val" else train, "val": None if kind == "only_train" else val}
+        cases.append(c)
+    return cases
+
+
+def run_user_stream(ctx, drv, cases):
+    import numpy as np
+    from quantem.diffractive_imaging.ptycho_utils import SimpleBatcher
+    from qv.driver import f2b
+    reqs, views = [], []
+    for c in cases:
+        n, b = c["n"], c["b"]
+        g = np.random.default_rng(c["seed"])
+        orders = []
+        try:
+            B = SimpleBatcher(n, b, shuffle=c["shuffle"], rng=c["seed"], val_ratio=c["ratio"], val_mode=c["mode"],
+                              train_indices=None if c["train"] is None else np.array(c["train"], dtype=int),
+                              val_indices=None if c["val"] is None else np.array(c["val"], dtype=int))
+            train = [int(x) for x in B.train_indices]
+            view = {"train": train, "val": [int(x) for x in B.val_indices], "epochs": []}
+            for _ in range(2):
+                view["epochs"].append([[int(x) for x in batch] for batch in B])
+                orders.append([int(x) for x in g.permutation(B.train_indices)] if c["shuffle"] else list(train))
+            view.update({"len": len(B), "val_batches": [[int(x) for x in batch] for batch in B.iter_val()], "val_len": B.val_len(),
+                         "has_validation": bool(B.has_validation)})
+            view = {"ok": view}
+        except Exception as e:  # noqa
+            view = {"err": type(e).__name__}
+        views.append(view)
+        reqs.append({"op": "init_user", "n": n, "ratio": f2b(c["ratio"]), "mode": c["mode"], "perm": [], "b": b, "orders": orders,
+                     "train": c["train"], "val": c["val"]})
+    for c, v, m in zip(cases, views, ask_batched(drv, reqs)):
+        ctx.count()
+        ctx.dist[f"user:{c['kind']}"] += 1
+        ctx.mark(("user", c["n"], c["b"], c["kind"], c["shuffle"]))
+        if "driver" in str(m.get("err", "")):
+            raise HarnessError(f"driver error {m}")
+        if m != v:
+            ctx.disagree("user-indices", c, m, v, note=f"kind={c['kind']}")
+        if c["kind"] in ("only_train", "only_val"):
+            if "ok" in v:      # (the error kind is compared with the model only)
+                ctx.pred_fail("user-indices-one-missing", "SimpleBatcher accepted train_indices without val_indices (or vice versa)", c, observed=v, required="an exception")
+        elif "ok" in v:
+            if v["ok"]["train"] != c["train"] or v["ok"]["val"] != c["val"]:
+                ctx.pred_fail("user-indices-altered", "SimpleBatcher does not use the user's train/val indices as given", c,
+                              observed={"train": v["ok"]["train"], "val": v["ok"]["val"]}, required={"train": c["train"], "val": c["val"]})
+            if c["kind"] in ("partition", "partition_unsorted"):
+                batcher_predicate(ctx, c, v["ok"])       # the user's lists are a partition: every clause applies
+        else:
+            ctx.pred_fail("user-indices-raises", f"SimpleBatcher raised {v['err']} on user supplied indices", c, observed=v, required="a batcher")
 
 
 # ---------------------------------------------------------------------------------------
@@ -492,27 +586,40 @@ def history_case(ctx, drv, cfg, b):
     built with the same seed.  (Catches state that survives reset_recon only after the generator has been
     advanced by an un-reset run, e.g. a batcher constructed before the reset.)"""
     from props import ptycho_tiny as pt
-    from qv.driver import f2b
+    from qv.driver import b2f, f2b
     iters = cfg["iters"]
 
-    def go(p, reset, n_it):
+    log = []      # every reconstruct call made on the history object, for the model tie
+
+    def go(p, reset, n_it, keep=False):
         rec = pt.record_batches(p, b, num_iters=n_it, freeze=False, reset=reset, loss_type=cfg["loss_type"],
                                 optimizer_params=pt.sgd_params(cfg["lr"], cfg["lr"]), keep_optimizers=not reset)
         sched = [(e["iter"], e["val"], e["indices"]) for e in rec]
         n_hist = len(p.iter_losses)
+        if keep:
+            consumed, vals = 0, []
+            for e in rec:
+                if e["val"]:
+                    vals.append([consumed, e["indices"][0], f2b(e["loss"])])
+                else:
+                    consumed += 1
+            it0 = min([e["iter"] for e in rec], default=0)
+            log.append({"reset": reset, "iters": n_it, "b": b, "train_losses": [f2b(e["loss"]) for e in rec if not e["val"]], "val": vals,
+                        "impl": {"schedule": [[e["indices"] for e in rec if not e["val"] and e["iter"] == it0 + k] for k in range(n_it)],
+                                 "iter_losses": [float(x) for x in p.iter_losses], "val_losses": [float(x) for x in p.val_iter_losses]}})
         return {"losses": [float(x) for x in p.iter_losses][n_hist - n_it:], "val": [float(x) for x in p.val_iter_losses][-n_it:] if len(p.val_iter_losses) else [],
                 "sched": [[it, v, idx] for it, v, idx in sched], "n_hist": n_hist}
     case = {"stream": "history", "cfg": cfg, "b": b}
     with pt.no_gc():
         p = build(cfg)
-        A = go(p, True, iters)
+        A = go(p, True, iters, keep=True)
         runs = []
         for k in cfg.get("cont", [1, 2]):
-            cont = go(p, False, k)
+            cont = go(p, False, k, keep=True)
             if cont["n_hist"] != iters + k:
                 ctx.pred_fail("continue-history-length", "continuing without reset does not append to the loss history", dict(case, k=k),
                               observed=cont["n_hist"], required=iters + k)
-            runs.append((k, go(p, True, iters)))
+            runs.append((k, go(p, True, iters, keep=True)))
         F = go(build(cfg), True, iters)
     N = int(p.dset.num_gpts)
     for k, C in runs:
@@ -544,6 +651,43 @@ def history_case(ctx, drv, cfg, b):
     impl_epochs = [[idx for it, v, idx in last["sched"] if not v and it == e] for e in range(iters)]
     if mv["epochs"] != impl_epochs:
         ctx.disagree("reconstruct-schedule-after-history", case, mv["epochs"], impl_epochs, note="batches of the reset run after (run, continue, reset) vs model schedule for the seed")
+    # correspondence with the reconstruct / reset_recon state machine of the model (Model/Batcher.lean `reconstruct`):
+    # the generator's draws are reproduced with a twin generator (table indexed by call position), the per-batch
+    # losses are those recorded above; the model does reset, schedule, epoch-loss and validation-loss bookkeeping
+    import numpy as np
+    table, twin, pos = {}, None, 0
+    for r in log:
+        if twin is None or r["reset"]:
+            twin, pos = np.random.default_rng(cfg["rng_seed"]), 0
+        perm = []
+        if py_nval(N, cfg["val_ratio"]) > 0 and cfg["val_mode"] == "random":
+            perm = [int(x) for x in twin.permutation(np.arange(N))]
+            table.setdefault(pos, perm)
+            pos += 1
+        tr, _va = py_split(N, cfg["val_ratio"], cfg["val_mode"], perm)
+        for _ in range(r["iters"]):
+            table.setdefault(pos, [int(x) for x in twin.permutation(np.asarray(tr, dtype=int))])
+            pos += 1
+    m = drv.ask({"op": "history", "n": N, "ratio": f2b(cfg["val_ratio"]), "mode": cfg["val_mode"], "seed": cfg["rng_seed"],
+                 "table": [table[i] for i in range(len(table))], "runs": [{k: v for k, v in r.items() if k != "impl"} for r in log]})
+    if "ok" not in m:
+        raise HarnessError(f"driver error {m}")
+    for j, (r, mo) in enumerate(zip(log, m["ok"])):
+        ctx.count()
+        ctx.dist["history:model-tie reset=" + str(r["reset"])] += 1
+        mv = {"schedule": mo["schedule"], "iter_losses": [b2f(x) for x in mo["iter_losses"]], "val_losses": [b2f(x) for x in mo["val_losses"]]}
+        if mv != r["impl"]:
+            ctx.disagree("reconstruct-state-machine", dict(case, run=j), mv, r["impl"],
+                         note=f"call #{j} (reset={r['reset']}, iters={r['iters']}): schedule / iter_losses / val_iter_losses after the call")
+        # the property's bookkeeping clause on the implementation itself: recorded epoch loss = mean over the yielded batches
+        tl = [b2f(x) for x in r["train_losses"]]
+        per = len(tl) // max(1, r["iters"])
+        for k in range(r["iters"]):
+            want = sum(tl[k * per:(k + 1) * per]) / max(1, per)
+            got = r["impl"]["iter_losses"][len(r["impl"]["iter_losses"]) - r["iters"] + k]
+            if abs(got - want) > 1e-12 * max(1.0, abs(want)):
+                ctx.pred_fail("recorded-loss-not-mean", "an iter_losses entry is not the mean of the losses of the batches yielded in that iteration",
+                              dict(case, run=j, iteration=k), observed=got, required=want)
     ctx.sample({"stream": "history", "cfg": cfg, "b": b, "losses_first_run": A["losses"], "continuations": cfg.get("cont", [1, 2])}, limit=6)
 
 
@@ -584,6 +728,7 @@ def run(ctx):
     try:
         cases = gen_batcher_cases(ctx)
         run_batcher_stream(ctx, drv, cases)
+        run_user_stream(ctx, drv, gen_user_cases(ctx))
         run_subdivide_stream(ctx, drv)
         rng = ctx.rng.fork(2)
         for i in range(ctx.n(10, 40)):
@@ -615,7 +760,9 @@ def replay(ctx, rep):
     stream = case.get("stream", "batcher")
     drv = Driver("C09")
     try:
-        if stream == "batcher" or "n" in case and "cfg" not in case and "nb" not in case:
+        if stream == "user":
+            run_user_stream(ctx, drv, [case])
+        elif stream == "batcher" or "n" in case and "cfg" not in case and "nb" not in case:
             run_batcher_stream(ctx, drv, [case])
         elif stream == "subdivide" or "nb" in case:
             impl = subdivide_impl(case["n"], case["nb"], case["mb"], case.get("start", 0))
